@@ -163,7 +163,7 @@ Definition resolve_str1 (m : nsm) (s : string) (is_id : bool) : sres :=
           | Some n => SFound (mkQn n l)
           | None =>
               match find (fun kv => starts_with (ns_uri (snd kv)) s) (tbl m) with
-              | Some (_, n) => SFound (mkQn n (remove_all (ns_uri n) s))
+              | Some (_, n) => SFound (mkQn n (drop (String.length (ns_uri n)) s))   (* str_value[len(namespace.uri):] (as repaired) *)
               | None => SParent
               end
           end
